@@ -21,6 +21,11 @@ ASSUMPTIONS = ["single-leaf evaluation through the public API defines the field 
 STATE = {"on": False}
 
 
+def pick_len(rng, maxlen):
+    """1, the longest path, or a length strictly in between (a shorter object then rests at its LAST pose)"""
+    return int(rng.choice([1, maxlen, int(rng.integers(1, maxlen + 1))]))
+
+
 def plan(tier):
     return {"shards": 8 if tier == "quick" else 16, "budget_s": 25 if tier == "quick" else 300,
             "required_counters": ["super_cases", "linear_cases", "reduction_loop_visits"]}
@@ -32,6 +37,8 @@ def rand_tree(rng, depth, L):
     for _ in range(n):
         if depth > 0 and rng.random() < 0.35:
             kids.append(rand_tree(rng, depth - 1, L))
+        elif rng.random() < 0.15:
+            kids.append(objs.rand_custom(rng, path_len=L))
         else:
             kids.append(objs.rand_source(rng, path_len=L))
     pos, ori = objs.rand_path(rng, L, 0.3)
@@ -49,12 +56,14 @@ def gen_super(rng):
     n = int(rng.integers(1, 7))
     entries = []
     for _ in range(n):
-        L = int(rng.choice([1, maxlen]))
+        L = pick_len(rng, maxlen)
         if rng.random() < 0.5:
             t = rand_tree(rng, int(rng.integers(0, 3)), L)
             if not src_leaves(t):
                 t["children"].append(objs.rand_source(rng, path_len=L))
             entries.append(t)
+        elif rng.random() < 0.2:
+            entries.append(objs.rand_custom(rng, path_len=L))
         else:
             entries.append(objs.rand_source(rng, path_len=L))
     if rng.random() < 0.2 and len(entries) > 1:
@@ -64,9 +73,10 @@ def gen_super(rng):
         obs = {"positions": (rng.normal(size=(nobs, 3)) * 3).tolist()}
     else:
         pix = objs.rand_sensor(rng)["pixel"]
-        obs = {"sensors": [objs.rand_sensor(rng, path_len=int(rng.choice([1, maxlen])), pixel=pix) for _ in range(nobs)]}
+        obs = {"sensors": [objs.rand_sensor(rng, path_len=pick_len(rng, maxlen), pixel=pix) for _ in range(nobs)]}
+    has_custom = any(l["cls"] == "CustomSource" for e in entries for l in objs.leaves(e))
     return {"type": "super", "entries": entries, "obs": obs, "sumup": bool(rng.random() < 0.5),
-            "field": str(rng.choice(list("BHJM")))}
+            "field": str(rng.choice(list("BH" if has_custom else "BHJM")))}
 
 
 def build_obs(obs):
